@@ -44,6 +44,8 @@ pub fn print_matrix_with_margin(qr: &QRCode) -> String {
 
     // Black background
     for i in (0..qr.size - 1).step_by(2) {
+    #[cfg(fast_qr_verif)]
+    crate::verif::point("term.line");
         let line = print_line(&qr[i], &qr[i + 1], qr.size);
         out.push(BLOCK);
         out.push_str(&line);
